@@ -873,6 +873,7 @@ class Controller(object):
 
         # Otherwise, we are doing a restart
         self.last_successful_iter = 0
+        self.rhoend = params("restarts.rhoend_scale") * self.rhoend  # the new run's rhoend (the main loop rescales its own copy identically)
         return None  # exit_info = None
 
     def move_furthest_points(self, number_of_samples, num_pts_to_move, params):
